@@ -42,6 +42,8 @@ def run(ctx: Ctx) -> None:
                       "run_circuit", handled, extra_tokens=tables.gl22_tokens(repo))
     rule_lc_check_inversion(ctx)
     rule_lc_toggle(ctx)
+    from ..rules import tableau as _tb
+    _tb.rule_sign_carry(ctx, [SRC, LCC])
     loops.rule_trial_fresh(ctx, LCE)
     loops.rule_gf2_truth(ctx, LCE, "_is_valid_clifford")
     ctx.floor("table.gl22", 7)
@@ -70,59 +72,145 @@ def rule_token_order(ctx: Ctx) -> None:
                  construct=f"converter_gate_list: token order {short(it)}")
 
 
+def _strip_rev(e: ast.AST):
+    """(inner expression, direction) after peeling `x[::-1]` / `reversed(x)` / `list(x)`"""
+    d = 1
+    while True:
+        if isinstance(e, ast.Subscript) and isinstance(e.slice, ast.Slice) and e.slice.lower is None and e.slice.upper is None \
+                and e.slice.step is not None and norm(e.slice.step) == "-1":
+            e, d = e.value, -d
+        elif isinstance(e, ast.Call) and call_name(e) == "reversed" and len(e.args) == 1:
+            e, d = e.args[0], -d
+        elif isinstance(e, ast.Call) and call_name(e) in ("list", "tuple") and len(e.args) == 1:
+            e = e.args[0]
+        else:
+            return e, d
+
+
 def rule_lc_check_inversion(ctx: Ctx) -> None:
+    """reverse.table (lc_check): the gates that take state2 to its graph are undone at the end of the total gate list: every tag is
+    replaced by its inverse *and* the list is reversed.  Recognised shapes: an if/elif loop that appends, or a comprehension with
+    a tag dictionary `.get(tag, tag)`; reversals `x[::-1]` / `reversed(x)` anywhere along the derivation are multiplied up."""
     repo = ctx.repo
     m = repo.module(LCC)
     fn = repo.anchor(LCC, "lc_check")
     ctx.touch(m, fn)
-    sm = repo.module(SRC)
     reach = set(tables.emitted_tags(repo.anchor(SRC, "state_to_graph"))) | set(tables.emitted_tags(repo.anchor(SRC, "_phase_correction")))
     non_self = {t for t in reach if t in cl.GATE1 and cl.key(cl.mm(cl.GATE1[t], cl.GATE1[t])) != cl.key(cl.I2)}
-    mapping = {}
-    inv_loop = None
-    for loop in [n for n in ast.walk(fn) if isinstance(n, ast.For)]:
-        for ch in extract_chains(repo, m, loop):
-            for b in ch:
-                if b.parsed and len(b.literals) == 1 and b.subject and b.subject.endswith("[0]"):
-                    for c in [x for st in b.body for x in calls_in(st) if call_attr(x) == "append"]:
-                        t = c.args[0]
-                        if isinstance(t, ast.Tuple) and isinstance(t.elts[0], ast.Constant):
-                            mapping[next(iter(b.literals))] = t.elts[0].value
-                            inv_loop = loop
-    if inv_loop is None:
-        raise AnalysisError("lc_check: inversion loop not found")
+    ps = func_params(fn)
+    # gate lists of the two conversions: third element of `g, tab, gates = rc.state_to_graph(<state k>)`
+    glist = {}
+    for n in ast.walk(fn):
+        if isinstance(n, ast.Assign) and isinstance(n.value, ast.Call) and call_attr(n.value) == "state_to_graph" and isinstance(n.targets[0], ast.Tuple) \
+                and len(n.targets[0].elts) == 3 and n.value.args and norm(n.value.args[0]) in ps[:2]:
+            glist[ps.index(norm(n.value.args[0]))] = norm(n.targets[0].elts[2])
+    if set(glist) != {0, 1}:
+        raise AnalysisError("lc_check: the two state_to_graph conversions (graph, tableau, gates) were not found")
+    g1, g2 = glist[0], glist[1]
+    tot = [n for n in ast.walk(fn) if isinstance(n, ast.Assign) and isinstance(n.value, ast.BinOp) and isinstance(n.value.op, ast.Add)
+           and len(norm(n.value).split(" + ")) == 3]
+    if len(tot) != 1:
+        raise AnalysisError("lc_check: the three-part total gate list was not found")
+    parts = []
+    e = tot[0].value
+    while isinstance(e, ast.BinOp) and isinstance(e.op, ast.Add):
+        parts.insert(0, e.right)
+        e = e.left
+    parts.insert(0, e)
+    if norm(parts[0]) == g1:
+        ctx.ok("reverse.table", m, tot[0], what="total list starts with the gates that take state1 to its graph")
+    else:
+        ctx.fail("reverse.table", m, tot[0], f"total gate list is assembled as `{norm(tot[0].value)}`; the order must be "
+                                             f"gates of state1, graph conversion, inverse(gates of state2)", func="lc_check",
+                 construct="lc_check: total list order")
+    # derive the third part from g2: mapping of tags and net direction
+    mapping, direction, node = {}, 1, tot[0]
+    cur, d0 = _strip_rev(parts[2])
+    direction *= d0
+    seen = set()
+    found_src = False
+    for _ in range(6):
+        if isinstance(cur, ast.Name) and cur.id == g2:
+            found_src = True
+            break
+        if not isinstance(cur, ast.Name) or cur.id in seen:
+            break
+        seen.add(cur.id)
+        name = cur.id
+        defs = [n for n in ast.walk(fn) if isinstance(n, ast.Assign) and len(n.targets) == 1 and norm(n.targets[0]) == name]
+        nxt = None
+        for dnode in defs:
+            v, dd = _strip_rev(dnode.value)
+            if isinstance(v, ast.Name) and v.id == name:
+                direction *= dd  # x = x[::-1]
+                continue
+            if isinstance(v, ast.List) and not v.elts:
+                # filled by a loop: for g in <src>: chain -> name.append((tag', g[1]))
+                for loop in [l for l in ast.walk(fn) if isinstance(l, ast.For) and any(call_name(c) == f"{name}.append" for c in calls_in(l))]:
+                    src, dl = _strip_rev(loop.iter)
+                    direction *= dl
+                    nxt = src
+                    node = loop
+                    gv = norm(loop.target)
+                    for ch in extract_chains(repo, m, loop):
+                        for b in ch:
+                            apps = [x for st in b.body for x in calls_in(st) if call_name(x) == f"{name}.append"]
+                            if b.parsed and len(b.literals) == 1 and b.subject == f"{gv}[0]":
+                                for c in apps:
+                                    t = c.args[0]
+                                    if isinstance(t, ast.Tuple) and isinstance(t.elts[0], ast.Constant):
+                                        mapping[next(iter(b.literals))] = t.elts[0].value
+                continue
+            if isinstance(v, (ast.ListComp, ast.GeneratorExp)) and len(v.generators) == 1:
+                src, dl = _strip_rev(v.generators[0].iter)
+                direction *= dd * dl
+                nxt = src
+                node = dnode
+                gv = norm(v.generators[0].target)
+                elt = v.elt
+                if isinstance(elt, ast.Tuple) and elt.elts:
+                    t0 = elt.elts[0]
+                    if isinstance(t0, ast.Call) and call_attr(t0) == "get" and len(t0.args) == 2 and norm(t0.args[0]) == f"{gv}[0]" == norm(t0.args[1]):
+                        dn = norm(t0.func.value)
+                        for dd_ in [x for x in ast.walk(fn) if isinstance(x, ast.Assign) and norm(x.targets[0]) == dn and isinstance(x.value, ast.Dict)]:
+                            for k, vv in zip(dd_.value.keys, dd_.value.values):
+                                if isinstance(k, ast.Constant) and isinstance(vv, ast.Constant):
+                                    mapping[k.value] = vv.value
+                    elif norm(t0) != f"{gv}[0]":
+                        raise AnalysisError(f"lc_check: tag expression `{short(t0)}` of the inverted list not recognised")
+                elif norm(elt) != gv:
+                    raise AnalysisError(f"lc_check: element `{short(elt)}` of the inverted list not recognised")
+                continue
+            if isinstance(v, ast.Name):
+                direction *= dd
+                nxt = v
+                continue
+            raise AnalysisError(f"lc_check: derivation step `{short(dnode)}` of the inverted gate list not recognised")
+        if nxt is None:
+            break
+        cur = nxt
+    if not found_src:
+        ctx.fail("reverse.table", m, tot[0], f"the last part of lc_check's total gate list (`{norm(parts[2])}`) is not derived from the gates that "
+                                             f"take state2 to its graph (`{g2}`)", func="lc_check", construct="lc_check: third part not derived from state2's gates")
+        return
     for t in sorted(non_self):
         to = mapping.get(t)
         if to is not None and to in cl.GATE1 and cl.key(cl.mm(cl.GATE1[t], cl.GATE1[to])) == cl.key(cl.I2):
-            ctx.ok("reverse.table", m, inv_loop, what=f"'{t}' -> '{to}'")
+            ctx.ok("reverse.table", m, node, what=f"'{t}' -> '{to}'")
         else:
-            ctx.fail("reverse.table", m, inv_loop,
+            ctx.fail("reverse.table", m, node,
                      f"lc_check inverts the gates that turn state2 into its graph, but tag '{t}' (not self-inverse) is mapped to "
                      f"{to!r} instead of its inverse", func="lc_check", construct=f"lc_check: inverse of '{t}' is {to!r}")
     for t, to in sorted(mapping.items()):
         if t not in non_self and t in cl.GATE1 and to in cl.GATE1 and cl.key(cl.mm(cl.GATE1[t], cl.GATE1[to])) != cl.key(cl.I2):
-            ctx.fail("reverse.table", m, inv_loop, f"lc_check maps tag '{t}' to '{to}', which is not its inverse",
+            ctx.fail("reverse.table", m, node, f"lc_check maps tag '{t}' to '{to}', which is not its inverse",
                      func="lc_check", construct=f"lc_check: inverse of '{t}' is '{to}'")
-    # and the inverted list is reversed before use
-    src_list = None
-    for n in ast.walk(fn):
-        if isinstance(n, ast.Assign) and isinstance(n.value, ast.Subscript) and isinstance(n.value.slice, ast.Slice) \
-                and n.value.slice.step is not None and norm(n.value.slice.step) == "-1" and "invers" in norm(n.targets[0]):
-            src_list = n
-    if src_list is not None:
-        ctx.ok("reverse.table", m, src_list, what="inverted gate list reversed")
+    if direction == -1:
+        ctx.ok("reverse.table", m, node, what="inverted gate list reversed")
     else:
-        ctx.fail("reverse.table", m, fn, "lc_check no longer reverses the inverted gate list of state2", func="lc_check",
-                 construct="lc_check: inverted list not reversed")
-    # total gate list order: gates1, conversion, inverse(gates2)
-    tot = [n for n in ast.walk(fn) if isinstance(n, ast.Assign) and "total" in norm(n.targets[0]) and isinstance(n.value, ast.BinOp)]
-    if tot:
-        parts = norm(tot[0].value).split(" + ")
-        if len(parts) == 3 and parts[0].startswith("gates1") and "invers" in parts[2]:
-            ctx.ok("reverse.table", m, tot[0], what="state1 -> graph1 -> graph2 -> state2 order")
-        else:
-            ctx.fail("reverse.table", m, tot[0], f"total gate list is assembled as `{norm(tot[0].value)}`; the order must be "
-                                                 f"gates1, graph conversion, inverse(gates2)", func="lc_check")
+        ctx.fail("reverse.table", m, node, "lc_check inverts each gate of state2's conversion but applies them in the original order: the inverse of "
+                                           "a sequence is the reversed sequence of inverses (wrong as soon as two of the gates act on one qubit)",
+                 func="lc_check", construct="lc_check: inverted list not reversed")
 
 
 def rule_lc_toggle(ctx: Ctx) -> None:
@@ -174,6 +262,7 @@ def rule_lc_toggle(ctx: Ctx) -> None:
 
 
 KNOCKOUTS = [
+    Knockout("clifford-input-signs-dropped", SRC, sub_once("        tab = state.to_stabilizer()\n", "        tab = StabilizerTableau(state.stabilizer)\n"), "sign.carry", "without signs"),
     Knockout("det-not-reduced", LCE, sub_once("checklist.append(int(determinant_of_clifford % 2))", "checklist.append(int(determinant_of_clifford))"), "gf2.truth", "unreduced"),
     Knockout("trial-vector-hoisted", LCE, sub_once("""    for j in range(trial_count):
         rand_var_vec = np.zeros((4 * n, 1))
